@@ -466,56 +466,78 @@ Definition parse_directive (c : N) (inp : bytes) : option dspec :=
 Definition sext32 (v : N) : Z := let w := v mod 4294967296 in if w <? 2147483648 then Z.of_N w else (Z.of_N w - 4294967296)%Z.
 Definition sext64 (v : N) : Z := if v <? 9223372036854775808 then Z.of_N v else (Z.of_N v - 18446744073709551616)%Z.
 
-(* the body of the `else` branch after the directive has been parsed, including fill & align;
-   result: buffer, out index, remaining arguments; None only when mi_out_num runs out of fuel *)
+(* the conversions.  Each returns: buffer, out index, remaining arguments, `start`, the effective
+   field width and fill character; None only when mi_out_num runs out of fuel *)
+Definition conv_result : Type := option (buf * N * list arg * N * N * N).
+
+Definition is64 (numtype : N) : bool := (numtype =? 122) || (numtype =? 116) || (numtype =? 76) || (numtype =? 108).
+
+(* if (c == 's') *)
+Definition conv_string (d : dspec) (args : list arg) (b : buf) (out e : N) : conv_result :=
+  let '(s, args) := pop_str args in
+  let '(b, out') := match s with Some s => outs s b out e | None => (b, out) end in
+  Some (b, out', args, out, d_width d, d_fill d).
+
+(* else if (c == 'p' || c == 'x' || c == 'u') *)
+Definition conv_unsigned (d : dspec) (args : list arg) (b : buf) (out e : N) : conv_result :=
+  let c := d_conv d in
+  let '(v, args) := pop_int args in
+  let x := if c =? 112 then v else if is64 (d_numtype d) then v else v mod 4294967296 in
+  let '(b, out1) := if c =? 112 then outs [48; 120] b out e else (b, out) in
+  let width := if c =? 112 then (if 2 <=? d_width d then d_width d - 2 else 0) else d_width d in
+  let '(width, fill) :=
+    if (width =? 0) && ((c =? 120) || (c =? 112)) then
+      let width := if c =? 112
+                   then 2 * (if x <=? UINT32_MAX_ then 4 else if N.shiftr x 16 <=? UINT32_MAX_ then 6 else 8)
+                   else width in
+      ((if width =? 0 then 2 else width), 48)
+    else (width, d_fill d) in
+  match out_num x (if (c =? 120) || (c =? 112) then 16 else 10) (d_numplus d) b out1 e with
+  | None => None
+  | Some (b, out') => Some (b, out', args, out1, width, fill)
+  end.
+
+(* else if (c == 'i' || c == 'd') *)
+Definition conv_signed (d : dspec) (args : list arg) (b : buf) (out e : N) : conv_result :=
+  let '(v, args) := pop_int args in
+  let x := if is64 (d_numtype d) then sext64 v else sext32 v in
+  let pre := if (x <? 0)%Z then 45 else if negb (d_numplus d =? 0) then d_numplus d else 0 in
+  match out_num (Z.abs_N x) 10 pre b out e with
+  | None => None
+  | Some (b, out') => Some (b, out', args, out, d_width d, d_fill d)
+  end.
+
+(* else if (c >= ' ' && c <= '~'): unknown format; otherwise nothing *)
+Definition conv_other (d : dspec) (args : list arg) (b : buf) (out e : N) : conv_result :=
+  let c := d_conv d in
+  if (32 <=? c) && (c <=? 126) then
+    let '(b, out1) := outc 37 b out e in
+    let '(b, out') := outc c b out1 e in
+    Some (b, out', args, out, d_width d, d_fill d)
+  else Some (b, out, args, out, d_width d, d_fill d).
+
+(* // fill & align *)
+Definition fill_align (base : N) (alignright : bool) (fill start width : N) (b : buf) (out e : N) : buf * N :=
+  let len := out - start in
+  if len <? width then
+    let '(b, out') := out_fill fill (width - len) b out e in
+    ((if alignright && (out' <=? e) then out_alignright base fill start len (width - len) e b else b), out')
+  else (b, out).
+
+(* the body of the `else` branch after the directive has been parsed *)
 Definition do_directive (base : N) (d : dspec) (args : list arg) (b : buf) (out e : N)
   : option (buf * N * list arg) :=
   let c := d_conv d in
-  let numtype := d_numtype d in
-  let is64 := (numtype =? 122) || (numtype =? 116) || (numtype =? 76) || (numtype =? 108) in
   let r :=
-    if c =? 115 (* s *) then
-      let '(s, args) := pop_str args in
-      let '(b, out') := match s with Some s => outs s b out e | None => (b, out) end in
-      Some (b, out', args, out, d_width d, d_fill d)
-    else if (c =? 112) || (c =? 120) || (c =? 117) (* p x u *) then
-      let '(v, args) := pop_int args in
-      let x := if c =? 112 then v else if is64 then v else v mod 4294967296 in
-      let '(b, out1) := if c =? 112 then outs [48; 120] b out e else (b, out) in
-      let width := if c =? 112 then (if 2 <=? d_width d then d_width d - 2 else 0) else d_width d in
-      let '(width, fill) :=
-        if (width =? 0) && ((c =? 120) || (c =? 112)) then
-          let width := if c =? 112
-                       then 2 * (if x <=? UINT32_MAX_ then 4 else if N.shiftr x 16 <=? UINT32_MAX_ then 6 else 8)
-                       else width in
-          ((if width =? 0 then 2 else width), 48)
-        else (width, d_fill d) in
-      match out_num x (if (c =? 120) || (c =? 112) then 16 else 10) (d_numplus d) b out1 e with
-      | None => None
-      | Some (b, out') => Some (b, out', args, out1, width, fill)
-      end
-    else if (c =? 105) || (c =? 100) (* i d *) then
-      let '(v, args) := pop_int args in
-      let x := if is64 then sext64 v else sext32 v in
-      let pre := if (x <? 0)%Z then 45 else if negb (d_numplus d =? 0) then d_numplus d else 0 in
-      match out_num (Z.abs_N x) 10 pre b out e with
-      | None => None
-      | Some (b, out') => Some (b, out', args, out, d_width d, d_fill d)
-      end
-    else if (32 <=? c) && (c <=? 126) then
-      let '(b, out1) := outc 37 b out e in
-      let '(b, out') := outc c b out1 e in
-      Some (b, out', args, out, d_width d, d_fill d)
-    else Some (b, out, args, out, d_width d, d_fill d) in
+    if c =? 115 then conv_string d args b out e
+    else if (c =? 112) || (c =? 120) || (c =? 117) then conv_unsigned d args b out e
+    else if (c =? 105) || (c =? 100) then conv_signed d args b out e
+    else conv_other d args b out e in
   match r with
   | None => None
   | Some (b, out', args, start, width, fill) =>
-      let len := out' - start in
-      if len <? width then
-        let '(b, out'') := out_fill fill (width - len) b out' e in
-        let b := if d_alignright d && (out'' <=? e) then out_alignright base fill start len (width - len) e b else b in
-        Some (b, out'', args)
-      else Some (b, out', args)
+      let '(b, out'') := fill_align base (d_alignright d) fill start width b out' e in
+      Some (b, out'', args)
   end.
 
 Definition printable (c : N) : bool := ((32 <=? c) && (c <=? 126)) || (c =? 10) || (c =? 13) || (c =? 9).
